@@ -574,7 +574,10 @@ impl<'a> Env<'a> {
             if i > 0 {
                 if let Some((owner, fs, _)) = self.virtuals(base) {
                     for f in fs {
-                        expose(f.name.as_str(), f, &owner, true, &mut out);
+                        // a virtual function without receiver has no wrapper to forward to
+                        if has_receiver(f) {
+                            expose(f.name.as_str(), f, &owner, true, &mut out);
+                        }
                     }
                 }
             }
